@@ -141,7 +141,7 @@ class Skeleton:
                 self.cells[cell_id].replace_vertex(self.vertices[vertex_id_to_delete],
                                                    self.vertices[edge_0[0]])
 
-            its_edges = self.vertices[vertex_id_to_delete].ownEdges
+            its_edges = self.vertices[vertex_id_to_delete].ownEdges.copy()
             for edge_id in its_edges:
                 del self.edges[edge_id]
 
